@@ -708,14 +708,26 @@ class ConstraintsIntersection(AbstractConstraintSet):
         # whatever imposes every operand of an intersection imposes
         # the intersection (`+` flattens, so a derived constraint set
         # holds the operands of its parent, not the parent itself)
-        otherValueMap = otherConstraint.getValueMap()
-
         for constraint in self._values:
-            if (constraint and constraint != otherConstraint and
-                    constraint not in otherValueMap):
+            if constraint and not self._isImposedBy(
+                    constraint, otherConstraint):
                 return False
 
         return True
+
+    @staticmethod
+    def _isImposedBy(constraint, otherConstraint):
+        # only an intersection imposes its operands (the value map also
+        # lists the operands of unions, which impose nothing)
+        if constraint == otherConstraint:
+            return True
+
+        if isinstance(otherConstraint, ConstraintsIntersection):
+            for operand in otherConstraint:
+                if ConstraintsIntersection._isImposedBy(constraint, operand):
+                    return True
+
+        return False
 
 
 class ConstraintsUnion(AbstractConstraintSet):
